@@ -50,6 +50,21 @@ TXT = {
     "deriv": r"\frac{{V^{ij}_{ab}} {t1cc^{ab}_{ij}} {t1^{cd}_{kl}} {V^{kl}_{cd}}}{16} - \frac{{t1cc^{ab}_{ij}} {t1^{ab}_{ij}} \left({e_{a}} + {e_{b}} - {e_{i}} - {e_{j}}\right)}{4}",  # noqa: E501
     "spin1": r"\frac{{V^{jk}_{ab}} {t1^{ab}_{jk}} {f^{i}_{c}}}{2} + {V^{ij}_{cb}} {Y^{b}_{j}}",
     "fock": r"{f^{i}_{j}} {X^{a}_{j}} - {f^{b}_{a}} {X^{b}_{i}} + {f^{k}_{c}} {t1^{ac}_{ik}}",
+    "t1_2_once": r"\frac{{t1^{ab}_{jk}} {V^{jk}_{ib}} {X^{a}_{i}}}{- 2 {e_{a}} + 2 {e_{i}}} + \frac{{t1^{bc}_{ij}} {V^{ja}_{bc}} {X^{a}_{i}}}{- 2 {e_{a}} + 2 {e_{i}}}",  # noqa: E501
+    "p0_2_mix": r"- \frac{{t1^{ab}_{ik}} {t1^{ab}_{jk}} {d^{i}_{j}}}{2} + \frac{{t1^{ac}_{ij}} {t1^{bc}_{ij}} {d^{a}_{b}}}{2}",  # noqa: E501
+    "t2_2_once": (
+        r"- \frac{{t1^{ab}_{kl}} {V^{ij}_{kl}} {Y^{ab}_{ij}}}{2 {e_{a}} + 2 {e_{b}} - 2 {e_{i}} - 2 {e_{j}}} "  # noqa: E501
+        r"- \frac{{t1^{cd}_{ij}} {V^{ab}_{cd}} {Y^{ab}_{ij}}}{2 {e_{a}} + 2 {e_{b}} - 2 {e_{i}} - 2 {e_{j}}} "  # noqa: E501
+        r"+ \frac{4 {t1^{ac}_{ik}} {V^{kb}_{jc}} {Y^{ab}_{ij}}}{{e_{a}} + {e_{b}} - {e_{i}} - {e_{j}}}"),  # noqa: E501
+    "big_simplify": (
+        r"{V^{ij}_{ab}} {t1^{ac}_{ik}} {t1^{bd}_{jl}} {Y^{cd}_{kl}} - {V^{ji}_{ab}} {t1^{bc}_{ik}} {t1^{ad}_{jl}} {Y^{cd}_{kl}} "  # noqa: E501
+        r"+ {V^{mn}_{ef}} {t1^{eg}_{mo}} {t1^{fh}_{nk}} {Y^{gh}_{ok}} + \frac{{V^{ij}_{ab}} {t1^{ab}_{ij}} {Y^{cd}_{kl}} {t1cc^{cd}_{kl}}}{8} "  # noqa: E501
+        r"- \frac{{V^{kl}_{cd}} {t1^{cd}_{kl}} {Y^{ab}_{ij}} {t1cc^{ab}_{ij}}}{8}"),
+    "perm_sym": r"{V^{ak}_{ic}} {t1^{bc}_{jk}} - {V^{bk}_{ic}} {t1^{ac}_{jk}} - {V^{ak}_{jc}} {t1^{bc}_{ik}} + {V^{bk}_{jc}} {t1^{ac}_{ik}}",  # noqa: E501
+    "denoms": r"\frac{{V^{ab}_{ij}} {V^{ij}_{ab}}}{\left({e_{a}} + {e_{b}} - {e_{i}} - {e_{j}}\right)^{2}} + \frac{{V^{ab}_{ij}} {f^{i}_{k}} {V^{kj}_{ab}}}{\left({e_{a}} + {e_{b}} - {e_{i}} - {e_{j}}\right) \left({e_{a}} + {e_{b}} - {e_{k}} - {e_{j}}\right)}",  # noqa: E501
+    "spin2": r"{V^{ij}_{ab}} {t1^{ab}_{ij}} + {f^{i}_{a}} {t2^{a}_{i}} - \frac{{V^{ia}_{jb}} {t2^{b}_{i}} {t2cc^{a}_{j}}}{2}",  # noqa: E501
+    "code3": r"{V^{kl}_{cd}} {t1^{ac}_{ik}} {t1^{bd}_{jl}} - \frac{{V^{kl}_{ij}} {t1^{ab}_{kl}}}{2} + {f^{a}_{c}} {t1^{bc}_{ij}}",  # noqa: E501
+    "wick3": r"{a^\dagger_{i}} {a_{a}} {f^{p}_{q}} {a^\dagger_{p}} {a_{q}} {t1^{bc}_{jk}} {a^\dagger_{b}} {a^\dagger_{c}} {a_{k}} {a_{j}}",  # noqa: E501
 }
 
 
@@ -513,6 +528,215 @@ def _(w):
     from adcgen import import_from_sympy_latex
     e = imp(w, "contr2", targets="ac")
     return import_from_sympy_latex(str(e))
+
+
+# ----------------------------------------------------------------------------- more expression level
+@tmpl("expr.simplify(big_simplify)", "expr", "", cost=2)
+def _(w):
+    from adcgen import simplify
+    return simplify(imp(w, "big_simplify", targets=""))
+
+
+@tmpl("expr.simplify(big_simplify,real)", "expr", "", cost=2)
+def _(w):
+    from adcgen import simplify
+    return simplify(imp(w, "big_simplify", real=True, targets=""))
+
+
+@tmpl("expr.simplify(perm_sym)", "expr", "ijab")
+def _(w):
+    from adcgen import simplify
+    return simplify(imp(w, "perm_sym", targets="ijab"))
+
+
+@tmpl("expr.sort.exploit_perm_sym(perm_sym)", "expr", None, cost=2)
+def _(w):
+    from adcgen import sort
+    res = sort.exploit_perm_sym(imp(w, "perm_sym", real=True, targets="ijab"), "ijab")
+    return {str(k): v for k, v in res.items()}
+
+
+@tmpl("expr.sort.exploit_perm_sym(perm_sym,bra_ket)", "expr", None, cost=2)
+def _(w):
+    from adcgen import sort
+    res = sort.exploit_perm_sym(imp(w, "perm_sym", real=True, targets="ijab"), "ijab", "ij,ab")
+    return {str(k): v for k, v in res.items()}
+
+
+@tmpl("expr.sort.by_tensor_target_indices(fock,X)", "expr", None)
+def _(w):
+    from adcgen import sort
+    res = sort.by_tensor_target_indices(imp(w, "fock", targets="ia"),
+                                        w.names["left_adc_amplitude"])
+    return {str(k): v for k, v in res.items()}
+
+
+@tmpl("expr.sort.by_tensor_target_block(fock,X)", "expr", None)
+def _(w):
+    from adcgen import sort
+    res = sort.by_tensor_target_block(imp(w, "fock", targets="ia"),
+                                      w.names["left_adc_amplitude"])
+    return {str(k): v for k, v in res.items()}
+
+
+@tmpl("expr.sort.by_delta_indices(deltas)", "expr", None)
+def _(w):
+    from adcgen import sort
+    res = sort.by_delta_indices(imp(w, "deltas", targets="ia"))
+    return {str(k): v for k, v in res.items()}
+
+
+@tmpl("expr.remove_tensor(big_simplify,Y)", "expr", None, cost=2)
+def _(w):
+    from adcgen import remove_tensor
+    res = remove_tensor(imp(w, "big_simplify", targets=""), w.names["right_adc_amplitude"])
+    return {str(k): v for k, v in res.items()}
+
+
+@tmpl("expr.derivative(big_simplify,t1cc)", "expr", None, cost=2)
+def _(w):
+    from adcgen import derivative
+    res = derivative(imp(w, "big_simplify", targets=""), w.names["gs_amplitude"] + "1cc")
+    return {str(k): v for k, v in res.items()}
+
+
+@tmpl("expr.factor_intermediates(t1_2_once,t1_2)", "expr", "", cost=3)
+def _(w):
+    from adcgen import factor_intermediates
+    return factor_intermediates(imp(w, "t1_2_once", real=True, targets=""),
+                                types_or_names="t1_2")
+
+
+@tmpl("expr.factor_intermediates(t1_2_once,t_amplitude)", "expr", "", cost=3)
+def _(w):
+    from adcgen import factor_intermediates
+    return factor_intermediates(imp(w, "t1_2_once", real=True, targets=""),
+                                types_or_names="t_amplitude")
+
+
+@tmpl("expr.factor_intermediates(p0_2_mix,mp_density)", "expr", "", cost=3)
+def _(w):
+    from adcgen import factor_intermediates
+    return factor_intermediates(imp(w, "p0_2_mix", real=True, targets=""),
+                                types_or_names=["p0_2_oo", "p0_2_vv"])
+
+
+@tmpl("expr.factor_intermediates(p0_2_mix,reversed)", "expr", "", cost=3)
+def _(w):
+    from adcgen import factor_intermediates
+    return factor_intermediates(imp(w, "p0_2_mix", real=True, targets=""),
+                                types_or_names=["p0_2_vv", "p0_2_oo"])
+
+
+@tmpl("expr.factor_intermediates(t2_2_once,t2_2)", "expr", "", cost=4)
+def _(w):
+    from adcgen import factor_intermediates
+    return factor_intermediates(imp(w, "t2_2_once", real=True, targets=""),
+                                types_or_names=["t2_2"])
+
+
+@tmpl("expr.factor_intermediates(denoms,t2_1)", "expr", "", cost=3)
+def _(w):
+    from adcgen import factor_intermediates
+    return factor_intermediates(imp(w, "denoms", real=True, targets=""),
+                                types_or_names="t2_1")
+
+
+@tmpl("expr.reduce_expr(t1_2_once)", "expr", "", cost=3)
+def _(w):
+    from adcgen import reduce_expr
+    return reduce_expr(imp(w, "t1_2_once", real=True, targets=""))
+
+
+@tmpl("expr.reduce_expr(p0_2_mix)", "expr", "", cost=3)
+def _(w):
+    from adcgen import reduce_expr
+    e = imp(w, "p0_2_mix", real=True, targets="").expand_intermediates()
+    return reduce_expr(e)
+
+
+@tmpl("expr.symbolic_denominators(denoms)", "expr", "")
+def _(w):
+    return imp(w, "denoms", targets="").use_symbolic_denominators()
+
+
+@tmpl("expr.symbolic_roundtrip(denoms)", "expr", "")
+def _(w):
+    return imp(w, "denoms", targets="").use_symbolic_denominators().use_explicit_denominators()
+
+
+@tmpl("expr.spatial(spin2,restricted)", "expr", None, cost=3)
+def _(w):
+    from adcgen import transform_to_spatial_orbitals
+    return transform_to_spatial_orbitals(imp(w, "spin2", real=True), "", "", restricted=True)
+
+
+@tmpl("expr.spatial(spin2,unrestricted)", "expr", None, cost=3)
+def _(w):
+    from adcgen import transform_to_spatial_orbitals
+    return transform_to_spatial_orbitals(imp(w, "spin2", real=True), "", "", restricted=False)
+
+
+@tmpl("expr.spatial(perm_sym,abab)", "expr", None, cost=3)
+def _(w):
+    from adcgen import transform_to_spatial_orbitals
+    return transform_to_spatial_orbitals(imp(w, "perm_sym", real=True), "ijab", "abab",
+                                         restricted=True)
+
+
+@tmpl("expr.spatial(perm_sym,aaaa,eri)", "expr", None, cost=3)
+def _(w):
+    from adcgen import transform_to_spatial_orbitals
+    return transform_to_spatial_orbitals(imp(w, "perm_sym", real=True), "ijab", "aaaa",
+                                         restricted=False, expand_eri=True)
+
+
+@tmpl("expr.wicks(wick3)", "expr", "ia", cost=2)
+def _(w):
+    from adcgen import wicks
+    return wicks(imp(w, "wick3").sympy, simplify_kronecker_deltas=True)
+
+
+@tmpl("expr.wicks(wick3,nodeltas)", "expr", "ia", cost=2)
+def _(w):
+    from adcgen import wicks
+    return wicks(imp(w, "wick3").sympy, simplify_kronecker_deltas=False)
+
+
+@tmpl("expr.term_symmetry(perm_sym)", "expr", None)
+def _(w):
+    e = imp(w, "perm_sym", targets="ijab")
+    return [sorted((str(k), v) for k, v in w.call(t, "symmetry").items()) for t in e.terms]
+
+
+for _backend in ("einsum", "libtensor"):
+    def _mk(backend):
+        @tmpl(f"code.generate_code(code3,{backend})", "expr", None, cost=2)
+        def _(w):
+            from adcgen import generate_code
+            e = imp(w, "code3", real=True, targets="ijab")
+            return generate_code(e, "ijab", backend=backend)
+
+        @tmpl(f"code.generate_code(code3,{backend},bra_ket,scaling)", "expr", None, cost=2)
+        def _(w):
+            from adcgen import generate_code
+            e = imp(w, "code3", real=True, targets="ijab")
+            return generate_code(e, "ijab", backend=backend, bra_ket_sym=0, max_itmd_dim=4)
+    _mk(_backend)
+
+
+@tmpl("code.optimize_contractions(code3)", "expr", None)
+def _(w):
+    from adcgen import optimize_contractions
+    e = imp(w, "code3", real=True, targets="ijab")
+    return [_scheme_repr(optimize_contractions(t, "ijab")) for t in e.terms]
+
+
+@tmpl("code.optimize_contractions(code3,max_itmd_dim)", "expr", None)
+def _(w):
+    from adcgen import optimize_contractions
+    e = imp(w, "code3", real=True, targets="ijab")
+    return [_scheme_repr(optimize_contractions(t, "ijab", max_itmd_dim=4)) for t in e.terms]
 
 
 # ----------------------------------------------------------------------------- rejected requests
